@@ -674,7 +674,10 @@ impl<'p, 's, M: Matcher, W: WriteColor> Sink for SummarySink<'p, 's, M, W> {
             )?;
             count
         };
-        if is_multi_line {
+        // In multi line mode, we count individual matches. But when the
+        // search is inverted, the lines given here are precisely those that
+        // contain no matches, so there is nothing to count other than lines.
+        if is_multi_line && !searcher.invert_match() {
             self.match_count += sink_match_count;
         } else {
             self.match_count += 1;
